@@ -90,6 +90,10 @@ def run(tier='quick'):
                         'storage): the value that reaches the encoder is the one the code computed', floor=20)
     from .. import rowrules as _rr
     _rr.lost_updates(prog, chk, L6)
+    L7 = chk.rule('L7', 'a decoder never narrows an integer it read from the blob: every conversion of a wider integer '
+                        'to a narrower one in a decoder or its helpers is dominated by a test of both bounds of the '
+                        'target type (a value the public type cannot hold is rejected, not reduced modulo 2^32)', floor=2)
+    decoder_narrowing(prog, chk, L7)
     return chk.finish(
         'Static comparison of the byte layout the code implements with an independent declarative layout '
         'table: the bit/byte mapping of the 14 primitives is derived from their AST, the ordered '
@@ -98,6 +102,76 @@ def run(tier='quick'):
         'against the table, and the zlib framing is checked on both sides. A self-consistent change of '
         'encoder and decoder (field swap, endianness, dropped prefix, reordered colour channels) differs '
         'from the table and is reported with the first differing item.', exhaustive=True)
+
+
+INT_BITS = {'long': 64, 'long long': 64, 'int64_t': 64, 'unsigned long': 64, 'unsigned long long': 64,
+            'uint64_t': 64, 'size_t': 64, 'std::size_t': 64, 'ptrdiff_t': 64, 'std::ptrdiff_t': 64,
+            'int': 32, 'int32_t': 32, 'unsigned int': 32, 'uint32_t': 32,
+            'short': 16, 'int16_t': 16, 'unsigned short': 16, 'uint16_t': 16,
+            'char': 8, 'signed char': 8, 'unsigned char': 8, 'int8_t': 8, 'uint8_t': 8}
+
+
+def _bits(t):
+    t = (t or '').replace('const ', '').replace('std::', '').strip()
+    return INT_BITS.get(t)
+
+
+def decoder_narrowing(prog, chk, rid):
+    from .. import guards, callgraph
+    from . import c05
+    cg = callgraph.get(prog)
+    roots = [prog.func(q) for q in c05.DECODERS]
+    reach = cg.reachable(roots, stop=lambda f: not prog.in_repo(f.file))
+    # the 2.x read converters that turn a decoded blob structure into the public value
+    for f in prog.functions.values():
+        if f.qualname.startswith('djinterop::engine::v2::convert::read::') and f.body is not None and \
+                '_blob' in (f.type or ''):
+            reach.setdefault(f.key, (f, None, None))
+    n_inst = 0
+    for key, (f, _, _) in sorted(reach.items(), key=lambda kv: (kv[1][0].file, kv[1][0].line)):
+        if f.body is None or f.is_pattern or not prog.in_repo(f.file):
+            continue
+        casts = []
+
+        def visit(n, facts, _f=None, casts=casts):
+            k = n.get('kind')
+            if k not in ('CXXStaticCastExpr', 'CStyleCastExpr', 'CXXFunctionalCastExpr', 'ImplicitCastExpr'):
+                return
+            if n.get('castKind') != 'IntegralCast':
+                return
+            c = children(n)
+            if not c:
+                return
+            src = strip(c[0], explicit=True)
+            sb, db = _bits(src.get('dtype') or src.get('type')), _bits(n.get('dtype') or n.get('type'))
+            if sb is None or db is None or db >= sb:
+                return
+            p = guards.canon(src)
+            if p is None or not p.startswith('#'):
+                return          # not a plain variable: arithmetic results are judged by C05 D2 / C15 U6
+            casts.append((n, p, n.get('dtype') or n.get('type'), set(facts)))
+        guards.walk_with_facts(f, visit)
+        for n, p, ty, facts in casts:
+            n_inst += 1
+            chk.analysed(f)
+            B = [x for x in facts if isinstance(x, tuple) and x[0] == 'B' and x[1] == p]
+            up = any(op in ('<', '<=') for (_, a, op, b) in B)
+            lo = any(op in ('>', '>=') for (_, a, op, b) in B)
+            eq = any(op == '==' for (_, a, op, b) in B)
+            short = f.qualname.replace('djinterop::engine::', '')
+            inst = '%s: %s -> %s' % (short, p.split(':', 1)[1], ty)
+            if (up and lo) or eq:
+                chk.ok(rid, inst + ' (both bounds tested)', locstr(n))
+            else:
+                chk.violation(rid, '%s|%s narrowed to %s' % (short, p.split(':', 1)[1], ty), locstr(n),
+                              '%s at %s: the %s-bit value read from the blob is converted to %s without a '
+                              'dominating test of %s: a stored value outside the target type is silently reduced '
+                              '(an independent reader of the layout sees a different number)' % (
+                                  inst, locstr(n), '64', ty,
+                                  'either bound' if not (up or lo) else ('the lower bound' if up else 'the upper bound')))
+    if n_inst == 0:
+        raise AnalysisBroken('L7: no narrowing conversion found in any decoder (the beat index is narrowed to int '
+                             'by construction of the public type)')
 
 
 def _columns(prog, chk, spec):
